@@ -983,4 +983,118 @@ theorem gen_exponential_edge_instance :
 
 end FamiliesGen
 
+/-! ## Audit: instances / witnesses added by the g27 review -/
+section Audit
+open EF Fw FamGenPf Vec
+
+theorem ef_aux_sub_self_ninf : (ninf - ninf : EF) = nan := rfl
+theorem ef_aux_nan_le (x : EF) : ¬ (nan ≤ x) := by
+  show ¬ EF.le nan x = true; cases x <;> simp [EF.le]
+theorem ef_aux_exp_ninf : (Transc.exp ninf : EF) = fin 0 := rfl
+theorem ef_aux_fin_le (a b : ℝ) : (fin a ≤ fin b) ↔ a ≤ b := by
+  show EF.le (fin a) (fin b) = true ↔ _; simp [EF.le]
+
+/-- every component outside its support (component log-probs `−∞`), any finite log-weights: the mixture's private
+`_log_prob` is exactly `−∞` — the max-shift falls back to `0`, no `∞ − ∞` NaN reaches the result -/
+theorem mixture_all_outside_ext (a b : ℝ) :
+    logsumexp [EF.ninf + EF.fin a, EF.ninf + EF.fin b] = EF.ninf := by
+  simp [logsumexp, listMax, Jnp.maximum, Jnp.sum, ef_aux_sub_self_ninf, ef_aux_nan_le, ef_aux_exp_ninf]
+
+/-- one component outside (`−∞`), one inside with log-prob `l`: finite, `l + log-weight` -/
+theorem mixture_one_outside_ext (a l b : ℝ) :
+    logsumexp [EF.ninf + EF.fin a, EF.fin l + EF.fin b] = EF.fin (l + b) := by
+  simp [logsumexp, listMax, Jnp.maximum, Jnp.sum, ef_aux_exp_ninf, ef_aux_fin_le, tlog_fin]
+
+
+
+
+theorem logNormWeights_pair_ext (w1 w2 : ℝ) (h1 : 0 < w1) (h2 : 0 < w2) :
+    logNormWeights [EF.fin w1, EF.fin w2] = (logNormWeights [w1, w2] : List ℝ).map EF.fin := by
+  have e1 := tlog_fin h1
+  have e2 := tlog_fin h2
+  by_cases h : Real.log w1 < Real.log w2
+  · simp [logNormWeights, logSoftmax, logsumexp, listMax, Jnp.maximum, Jnp.sum, e1, e2, h, ef_aux_fin_le]
+    rw [tlog_fin (by positivity : (0 : ℝ) < Real.exp (Real.log w1 - Real.log w2) + 1)]
+    simp
+  · simp [logNormWeights, logSoftmax, logsumexp, listMax, Jnp.maximum, Jnp.sum, e1, e2, h, ef_aux_fin_le]
+    rw [tlog_fin (by positivity : (0 : ℝ) < 1 + Real.exp (Real.log w2 - Real.log w1))]
+    simp
+
+/-- **a mixture of two components evaluated outside BOTH supports** (component `_log_prob`s `−∞`, e.g. two Uniforms), any positive
+unnormalised weights: private `_log_prob` is exactly `−∞` (not NaN), and so is the public value -/
+theorem mixture_outside_ext (w1 w2 : ℝ) (h1 : 0 < w1) (h2 : 0 < w2) :
+    mixtureLogProb [EF.ninf, EF.ninf] [EF.fin w1, EF.fin w2] = EF.ninf ∧
+    publicLp (mixtureLogProb [EF.ninf, EF.ninf] [EF.fin w1, EF.fin w2]) = EF.ninf := by
+  have h : mixtureLogProb [EF.ninf, EF.ninf] [EF.fin w1, EF.fin w2] = EF.ninf := by
+    unfold mixtureLogProb
+    rw [logNormWeights_pair_ext w1 w2 h1 h2]
+    obtain ⟨a, b, hab⟩ : ∃ a b : ℝ, (logNormWeights [w1, w2] : List ℝ) = [a, b] :=
+      ⟨_, _, by simp only [logNormWeights, logSoftmax, List.map_cons, List.map_nil]; rfl⟩
+    rw [hab]
+    exact mixture_all_outside_ext a b
+  exact ⟨h, by rw [h]; exact EF.publicLp_ninf⟩
+
+/-- two independent dimensions over `EF`: `Uniform([0,0],[1,3])` at `(1/2, 5)` — second coordinate outside — is exactly `−∞` -/
+theorem uniform_2d_outside_ext :
+    (lifted [uniformComp (EF.fin 0) (EF.fin 1), uniformComp (EF.fin 0) (EF.fin 3)]).logProb [EF.fin (1 / 2), EF.fin 5] () = EF.ninf := by
+  have a1 := FamiliesEF.affine_invLd 0 (1 - 0) (by norm_num) (EF.fin (1 / 2))
+  have a2 := FamiliesEF.affine_invLd 0 (3 - 0) (by norm_num) (EF.fin 5)
+  simp only [lifted, uniformComp, stdVec, Transformed.toDist, Transformed.logProb, DistCore.toDist, Bij.elementwise,
+    List.map_cons, List.map_nil, fin_sub]
+  simp only [List.zipWith_cons_cons, List.zipWith_nil_left, a1, a2, FamiliesEF.affInv, FamiliesEF.uniformLp_fin, Jnp.sum,
+    List.foldl_cons, List.foldl_nil]
+  norm_num
+  simp
+
+/-- WITNESS of a totalised guard: with THREE components and ONE weight the model's `zipWith` truncates and the mixture log-prob is
+the FIRST component's alone, while `mixture_object_log_prob` / `gen_mixture_log_prob` (no length hypothesis) still "apply".
+The real `VmapMixture(3 Normals, weights=[1.0])` is accepted and BROADCASTS the weight instead (total mass 3.0). -/
+theorem mixture_length_mismatch_audit_witness (l0 l1 l2 w : ℝ) (hw : 0 < w) :
+    mixtureLogProb [l0, l1, l2] [w] = l0 := by
+  rw [mixture_density [w] (by simpa using hw) [l0, l1, l2]]
+  simp [div_self hw.ne']
+
+/-- `mvn_trained_log_prob`: hypotheses satisfiable (n = 2, raw diagonal of both signs, non-zero strictly-lower entry) -/
+theorem mvn_trained_audit_instance : MvnPf.CholFactor 2 (Params.triangularOfRaw true [-1, 2] [[0, 0], [5, 0]]) :=
+  (mvn_trained_log_prob [-1, 2] [[0, 0], [5, 0]]
+    ⟨rfl, by intro r hr; simp at hr; rcases hr with rfl | rfl <;> rfl⟩ rfl (fun _ => 0) (fun _ => 0)).1
+
+/-- the generated `Normal` constructor + accessors on the genuinely broadcasting pair of shapes `(3,)` × `(2, 1)` -/
+theorem gen_normal_broadcast_audit_instance :
+    ∃ d, GenFam.Normal.init (⟨[3], [10, 20, 30]⟩ : NArr ℝ) ⟨[2, 1], [1, 2]⟩ = some d ∧
+      (GenFam.locScaleLoc d).data = [10, 20, 30, 10, 20, 30] ∧ (GenFam.locScaleScale d).data = [1, 1, 1, 2, 2, 2] := by
+  obtain ⟨d, hd, _, _, h1, h2, _⟩ := gen_normal_accessor (⟨[3], [10, 20, 30]⟩ : NArr ℝ) ⟨[2, 1], [1, 2]⟩ (s := [2, 3])
+    gen_broadcast_instance.1 (by
+      intro σ hσ
+      rw [gen_broadcast_instance.2.2] at hσ
+      simp at hσ
+      rcases hσ with rfl | rfl <;> norm_num)
+  exact ⟨d, hd, by rw [h1]; exact gen_broadcast_instance.2.1, by rw [h2]; exact gen_broadcast_instance.2.2⟩
+
+/-- over `ℝ` the model's Uniform log-prob OUTSIDE the support is the in-support value (`Real.log 0 = 0`): the `ℝ` statements say
+nothing outside the support; only the `EF` statements do -/
+theorem uniform_real_outside_audit_witness (a b x : ℝ) (h : a < b) (hx : x < a ∨ b < x) :
+    (uniform a b).logProb x () = -Real.log (b - a) := by
+  rw [uniform_outside_branch a b x h hx]
+  show Real.log 0 - Real.log (b - a) = _
+  simp
+
+/-- the covariance round trip stated with the trusted Cholesky specification as an explicit hypothesis: if
+`chol(Σ)·chol(Σ)ᵀ = Σ` then `.covariance` returns `Σ` -/
+theorem mvn_covariance_roundtrip_audit (cholesky : List (List ℝ) → List (List ℝ)) (loc : List ℝ) (cov : List (List ℝ)) {n : ℕ}
+    (h : MvnPf.CholFactor n (cholesky cov)) (hl : loc.length = n)
+    (hspec : TriPf.toMat n (cholesky cov) * (TriPf.toMat n (cholesky cov)).transpose = TriPf.toMat n cov) :
+    ∃ c, Families.mvnCovariance loc (cholesky cov) = some c ∧ TriPf.toMat n c = TriPf.toMat n cov := by
+  obtain ⟨c, h1, _, h3⟩ := mvn_accessor_covariance h hl _ hspec
+  exact ⟨c, h1, h3⟩
+
+theorem mvn_covariance_roundtrip_audit_instance :
+    ∃ c, Families.mvnCovariance [1, -1] [[2, 0], [1, 3]] = some c ∧ TriPf.toMat 2 c = TriPf.toMat 2 [[4, 2], [2, 10]] := by
+  refine mvn_covariance_roundtrip_audit (fun _ => [[2, 0], [1, 3]]) [1, -1] [[4, 2], [2, 10]] cholFactor_instance rfl ?_
+  rw [mvn_covariance_instance]
+  ext i j
+  fin_cases i <;> fin_cases j <;> simp [TriPf.toMat, TriPf.entry]
+
+end Audit
+
 end C05
